@@ -17,6 +17,7 @@ SPECS = {}
 SPECS["C05"] = {
     "level": "model_checking",
     "groups": [dict(LIBGO, entries=[
+        {"name": "VerifC05_StompBurst", "native": False, "quick": {"params": [0, 1], "flags": ["-preempt", "1"], "procs": 2}, "thorough": {"params": [0, 1, 2], "flags": ["-preempt", "2", "-par", "4"], "procs": 3}},
         {"name": "VerifC05_FramePath", "flags": ["-unwind-violation"], "quick": {"params": lengths(14)}, "thorough": {"params": lengths(22)}, "expect_reach": ["end", "parsed", "rejected"]},
         {"name": "VerifC05_UnmarshalFrame", "flags": ["-unwind-violation"], "quick": {"params": lengths(16)}, "thorough": {"params": lengths(24)}, "expect_reach": ["end", "parsed", "rejected"]},
         {"name": "VerifC05_AddHeaders", "flags": ["-unwind-violation"], "quick": {"params": lengths(16)}, "thorough": {"params": lengths(24)}, "expect_reach": ["end", "parsed", "rejected"]},
@@ -44,6 +45,7 @@ SPECS["C05"] = {
 SPECS["C04"] = {
     "level": "model_checking",
     "groups": [dict(LIBGO, entries=[
+        {"name": "VerifC04_LargeBlock", "quick": {"params": [0, 2, 4], "procs": 3}, "thorough": {"params": [0, 1, 2, 3, 4, 5], "procs": 6}},
         {"name": "VerifC04_RoundTrip", "quick": {"params": [0, 1, 2], "bound": 2}, "thorough": {"params": [0, 1, 2], "bound": 3, "procs": 3},
          "expect_reach": ["end", "distinct-names", "collapsed-names"]},
         {"name": "VerifC04_RoundTrip", "tiers": ["thorough"], "thorough": {"params": [3], "bound": 2, "flags": ["-par", "6", "-max-paths", "2000000"]},
